@@ -211,6 +211,9 @@ def run(ctx, rec):
     for case in X.directed_cases(rng, ctx.mine, vrels=["superset", "superset_permuted"]):
         run_case(case, rec)
         k += 1
+        if k % 3 == 0:
+            rec.events["twin-named-cases"] += 1
+            run_case(X.twin_named_case(case), rec)
         if k % 2 == 0:
             sc = X.shared_case(rng, case, form=(k // 2) % len(X.DAG_FORMS))
             if sc is not None:
